@@ -29,7 +29,7 @@ EXPLANATION = (
     'only behind the exit of the loop that establishes that str[left] is not a space (or left > right).')
 EXPLANATION += ' C09.R5 also requires that after traceparent the tracestate Set can only be skipped on the empty() edge of the header string. C09.R7 (re-entrancy): no function-local static of the parse/validate/inject functions is modified after its initialisation.'
 EXPLANATION += ' C09.R8 (bounded regex): every std::regex applied to header bytes either has a finite maximal match length (computed from the pattern by the same normal form as C14.R7) or is reached only behind a size guard - an unbounded quantifier over attacker-sized input recurses without bound in libstdc++.'
-ROUND2_EXPLANATION = (' C09.R9: every memcmp / memcpy on the representation of TraceId / SpanId covers the static extent of the array. Shared C16.R5: HttpTraceContext is a function of (carrier, given context).')
+ROUND2_EXPLANATION = (' C09.R9: every memcmp / memcpy on the representation of TraceId / SpanId covers the static extent of the array. C09.R10: the fields are split from Trim(carrier.Get(traceparent)) and the trace state is parsed from carrier.Get(tracestate) (dependence through the inlined private helpers). Shared C16.R5: HttpTraceContext is a function of (carrier, given context).')
 EXPLANATION += ROUND2_EXPLANATION
 NOT_DECIDED = ('that exactly the W3C-well-formed byte strings are accepted over all inputs; memory safety of HexToBinary\'s '
                'variable-index writes (relational bound buffer_pos < buffer_size).')
@@ -672,6 +672,74 @@ def rule_r9_id_blocks(ck, prog, rule='C09.R9', classes=('trace::TraceId', 'trace
     return cnt
 
 
+def rule_r10_header_sources(ck, prog, rule='C09.R10', cls='trace::propagation::HttpTraceContext'):
+    """which header feeds what (dependence through the private helpers of the propagator, which are inlined): the text that is split
+    into the four traceparent fields is the carrier's traceparent value after StringUtil::Trim (surrounding whitespace is legal),
+    and the trace state of the extracted context is parsed from the carrier's tracestate value - not from the other header"""
+    from .common import same_class_inline
+    f = prog.function(cls + '::ExtractImpl')
+    g = Graph(prog, f, inline=same_class_inline(prog, f.cls or ''), sync_lambdas=False, max_depth=2)
+    rd = reaching_defs(g)
+
+    def header_of(sf, sn):
+        # 'traceparent' / 'tracestate' when sn is carrier.Get(k...) of that header
+        if sn['k'] == 'call' and strip_targs(sn.get('c', '')).endswith('TextMapCarrier::Get') and sn.get('args'):
+            names = {sf.nodes[i].get('name') for i in list(sf.subtree(sn['args'][0])) + [sn['args'][0]] if sf.nodes[i]['k'] == 'ref'}
+            if 'kTraceParent' in names:
+                return 'traceparent'
+            if 'kTraceState' in names:
+                return 'tracestate'
+        return None
+
+    def sources(p, idx, under_trim=False, depth=0):
+        """set of (header, whether a StringUtil::Trim lies on the derivation) the expression derives from"""
+        out = set()
+        for (sf, sn, sc) in origins(g, rd, p.f, idx, p.ctx):
+            h = header_of(sf, sn)
+            if h:
+                out.add((h, under_trim))
+                continue
+            if sn['k'] in ('call', 'construct') and depth < 5:
+                pt = g.point_of.get((id(sc), sn['i']))
+                if pt is None:
+                    continue
+                if sn['k'] == 'call' and strip_targs(sn.get('c', '')).endswith('StringUtil::Trim') and sn.get('args'):
+                    out |= sources(pt, sn['args'][0], True, depth + 1)
+                else:
+                    # a conversion / sub-view of a view: follow the object or the first operand
+                    nxt = sn['obj'] if sn.get('obj') is not None else (sn['args'][0] if sn.get('args') else None)
+                    if nxt is not None and nxt >= 0:
+                        out |= sources(pt, nxt, under_trim, depth + 1)
+        return out
+    splits = [p for p in g.points if p.n is not None and p.n['k'] == 'call' and strip_targs(p.n.get('c', '')).endswith('detail::SplitString') and p.n.get('args')]
+    parses = [p for p in g.points if p.n is not None and p.n['k'] == 'call' and strip_targs(p.n.get('c', '')).endswith('TraceState::FromHeader') and p.n.get('args')]
+    if not splits or not parses:
+        raise AnalysisBroken('C09.R10: SplitString / TraceState::FromHeader not reached from %s::ExtractImpl' % cls)
+    src = sources(splits[0], splits[0].n['args'][0])
+    h = {x for (x, _t) in src}
+    # trimmed: every read of the traceparent header in this function is (through once-initialised locals) the operand of a Trim call
+    from .common import subtree_through_locals
+    gets = [n for n in f.nodes if header_of(f, n) == 'traceparent']
+    trims = [n for n in f.nodes if n['k'] == 'call' and strip_targs(n.get('c', '')).endswith('StringUtil::Trim') and n.get('args')]
+    t = bool(gets) and all(any(gn['i'] in set(subtree_through_locals(f, tn['args'][0])) | {tn['args'][0]} for tn in trims) for gn in gets)
+    if not h:
+        ck.inconclusive(rule, f, 'traceparent-fields-from-trimmed-traceparent', splits[0].n, 'the origin of the text that is split into fields was not resolved')
+    else:
+        ok = h == {'traceparent'} and t
+        ck.verdict(ok, rule, f, 'traceparent-fields-from-trimmed-traceparent', splits[0].n,
+                   'the fields are split from Trim(carrier.Get(traceparent))' if ok else
+                   ('the traceparent is parsed without trimming surrounding whitespace: a well-formed header with leading / trailing blanks is rejected' if h == {'traceparent'} else
+                    'the traceparent fields are split from %s' % sorted(h)))
+    h = {x for (x, _t) in sources(parses[0], parses[0].n['args'][0])}
+    if not h:
+        ck.inconclusive(rule, f, 'trace-state-from-tracestate-header', parses[0].n, 'the origin of the parsed trace state text was not resolved')
+    else:
+        ok = h == {'tracestate'}
+        ck.verdict(ok, rule, f, 'trace-state-from-tracestate-header', parses[0].n,
+                   'the trace state is parsed from carrier.Get(tracestate)' if ok else
+                   'the trace state of the extracted context is parsed from %s instead of the tracestate header: the vendor list is lost (or garbage is parsed)' % sorted(h))
+
+
 def run(ck, prog):
     ck.doc('C09.R1', 'InjectImpl: constant-bounded writes partition the 55-byte buffer; literal bytes; view size', 3)
     ck.doc('C09.R2', 'writer digit tables are lower-case hex in all three siblings; reader table exact over 256 entries', 4)
@@ -697,6 +765,8 @@ def run(ck, prog):
     n7 = rule_r7(ck, prog)
     if not n7:
         ck.holds('C09.R7', prog.function('trace::propagation::HttpTraceContext::Extract'), 'no-static-locals', None, 'no function-local statics in the analysed API functions')
+    ck.doc('C09.R10', 'header sources: fields split from the trimmed traceparent value; trace state parsed from the tracestate value', 2)
+    rule_r10_header_sources(ck, prog)
     ck.doc('C09.R9', 'every memcmp/memcpy on the representation of a trace / span id covers the whole array (validity, equality, copies)', 2)
     rule_r9_id_blocks(ck, prog)
     from . import c16
